@@ -208,11 +208,12 @@ def build(v):
         return r if t == "list2" else tuple(r)
     if t in ("arr0", "arr1", "arr2"):
         dt = {"b": bool, "i": np.int64, "f": np.float64}[v[1]]
+        el = (lambda m: m // 8) if v[1] == "i" else fl_py   # ints exactly
         if t == "arr0":
-            return np.array(fl_py(v[2]), dtype=dt)
+            return np.array(el(v[2]), dtype=dt)
         if t == "arr1":
-            return np.array([fl_py(x) for x in v[2]], dtype=dt)
-        return np.array([[fl_py(x) for x in row] for row in v[2]], dtype=dt)
+            return np.array([el(x) for x in v[2]], dtype=dt)
+        return np.array([[el(x) for x in row] for row in v[2]], dtype=dt)
     return build_scalar(v)
 
 
@@ -1090,6 +1091,13 @@ def impl_route1(case, scratch, idx):
     return enc_obs(obs), fails
 
 
+def dfn_meta_sections():
+    """sections that are written to .rtdc files (the writer refuses the
+    analysis sections with a ValueError)"""
+    from dclab import definitions as dfn
+    return set(dfn.CFG_METADATA) - {"fmt_tdms"}
+
+
 def representable(x):
     """values of keys without a converter that an HDF5 attribute can hold
     without coercion: text, numbers, homogeneous numeric sequences/arrays
@@ -1139,8 +1147,8 @@ def impl_route2(case, val, scratch, idx):
             not -2 ** 63 <= ref[1] < 2 ** 63:
         ref = ("ok", ABSENT, [], False)     # HDF5 has 64 bit integers
     if ref[0] == "ok" and ref[1] is not ABSENT and not ref[2] and \
-            (sec == "user" or key == lk) and \
-            (conv_key or (wrote and representable(ref[1]))):
+            (sec == "user" or (key == lk and sec in dfn_meta_sections())) \
+            and (conv_key or (wrote and representable(ref[1]))):
         # (store_metadata takes the keys as they are: a key that is not
         # lower-case is refused with a ValueError; values of keys without a
         # converter that HDF5 cannot represent are the caller's business)
